@@ -710,7 +710,9 @@ def check(ctx):
     system_identity(ctx, o7)
     o8 = ctx.shared('c03', 'C03.8', 'C20.8', 'an asset created or connected later behaves like one created before the start only if its upstream is told about the new '
                     'connection whenever the model is initialised -- between two simulate() calls as well as inside an event')
-    return [oa, ob, o2, o3, o4, o5, o6, o7, o8]
+    o9 = ctx.shared('c18', 'C18.2', 'C20.9', 'a scheduler created while the simulation runs behaves like one created before the start only if its transitions are scheduled '
+                    'relative to the current time (now + duration), not on a time axis of its own that starts at 0')
+    return [oa, ob, o2, o3, o4, o5, o6, o7, o8, o9]
 
 
 CLAIM = {
